@@ -232,7 +232,8 @@ Definition rexec (s : rstate) (c : rcmd) : rstate * rans :=
   | QHsetDeliv id l =>
       let h := hget s id in (hput s id (mkHash (h_env h) (h_ts h) (h_att h) (Some l)), XUnit)
   | QKeys =>
-      (s, XKeys (map KId (akeys (r_hashes s)) ++ match r_queue s with [] => [] | _ :: _ => [KQueue] end))
+      (* KEYS order is unspecified: taken in ascending id order, the list key last (as the fake does) *)
+      (s, XKeys (map KId (rev (sort_desc (akeys (r_hashes s)))) ++ match r_queue s with [] => [] | _ :: _ => [KQueue] end))
   | QHgetTs (KId id) => (s, XOptNum (h_ts (hget s id)))
   | QHgetTs KQueue => (s, match r_queue s with [] => XOptNum None | _ :: _ => XWrong end)
   | QHmget id => let h := hget s id in (s, XHm (h_env h) (h_att h) (h_deliv h))
